@@ -150,7 +150,11 @@ CHECKS = {
              "returned nil and the published content is exactly the concatenation of the writes; the error flag is set exactly "
              "when the storing side failed, then Close returns the error and nothing is published; the invariant (reader about to "
              "wait or parked => pipe open and buffer empty, or a Signal/Broadcast is pending); the gRPC stream writer sends chunks "
-             "of length 1..chunkSize whose concatenation is the concatenation of the writes. Refuted for the code before the "
+             "of length 1..chunkSize whose concatenation is the concatenation of the writes, and composed with the server's upload reader "
+             "(Stream.v) and the store's write path (Faults.v): a completed external Create stores exactly the concatenation of its Writes for "
+             "every chunk size, server buffer length, fault plan and root order (C12_grpc_create_stores_concat), the server's read loop ends "
+             "(C12_grpc_create_reader_terminates), a stream cut after any number of chunks is not stored (C12_grpc_create_abort_not_stored). "
+             "Refuted for the code before the "
              "fix: commit and stated as such with vm_compute witnesses (content truncated after an empty Write; Close never returns "
              "when it broadcasts before the reader parks; each half of the repair alone is insufficient). Tie: schedule replay "
              "through verifhook pause points: the extracted model enumerates every replayable (eager-normal) complete schedule for "
